@@ -91,7 +91,7 @@ func genRejection(t *rapid.T, sc *Scenario) string {
 		if len(c.Msgs) == 0 || c.Form == FormConnectGet || c.Form == FormREST {
 			return ""
 		}
-		if len(c.Msgs[0]) == 0 && (c.Codec == CodecProto || c.Codec == CodecText) && c.Compression == "" {
+		if len(c.Msgs[0]) == 0 && (c.Codec == CodecProto || c.Codec == CodecText) && (c.Compression == "" || (len(c.MsgRaw) > 0 && c.MsgRaw[0])) {
 			return ""
 		}
 		c.Fault = &Fault{Kind: FaultGarbage, At: rapid.IntRange(0, 3).Draw(t, "fault_at")}
